@@ -2,7 +2,6 @@ package bsonkit
 
 import (
 	"fmt"
-	"strconv"
 
 	"go.mongodb.org/mongo-driver/bson"
 )
@@ -213,8 +212,8 @@ func put(v interface{}, path string, value interface{}, prepend bool, set func(i
 
 	// put array field
 	if arr, ok := v.(bson.A); ok {
-		index, err := strconv.Atoi(key)
-		if err != nil || index < 0 {
+		index, ok := ParseIndex(key)
+		if !ok {
 			return Missing, false
 		}
 
